@@ -580,33 +580,33 @@ func ruleSymAncestry(c *Ctx) []*Obligation {
 	foreign := false
 	foreignDesc := ""
 	ex := c.newExpr(fn)
-	isFresh := func(v ssa.Value) bool {
+	// a slice value whose backing array was allocated in this call (or nil): make, a slice literal,
+	// nil, append(fresh, …) (grows in or out of an array this call owns), a phi of such values
+	var isFresh func(v ssa.Value, depth int) bool
+	isFresh = func(v ssa.Value, depth int) bool {
+		if depth <= 0 {
+			return false
+		}
 		switch x := v.(type) {
 		case *ssa.MakeSlice:
 			return true
 		case *ssa.Slice:
-			_, isAlloc := x.X.(*ssa.Alloc)
-			return isAlloc
+			if _, isAlloc := x.X.(*ssa.Alloc); isAlloc {
+				return true
+			}
+			return isFresh(x.X, depth-1)
 		case *ssa.Const:
 			return x.Value == nil
+		case *ssa.Phi:
+			for _, e := range x.Edges {
+				if !isFresh(e, depth-1) {
+					return false
+				}
+			}
+			return true
 		case *ssa.Call:
 			if bi, ok := x.Call.Value.(*ssa.Builtin); ok && bi.Name() == "append" {
-				// append(fresh, other...) copies other into a new array when fresh has no spare capacity
-				a0 := x.Call.Args[0]
-				switch y := a0.(type) {
-				case *ssa.Slice:
-					if al, ok := y.X.(*ssa.Alloc); ok {
-						if n, ok := arrayLen(al.Type()); ok && n == 0 {
-							return true
-						}
-					}
-				case *ssa.Const:
-					return y.Value == nil
-				case *ssa.MakeSlice:
-					if k, isK := constInt(y.Len); isK && k == 0 {
-						return true
-					}
-				}
+				return isFresh(x.Call.Args[0], depth-1)
 			}
 		}
 		return false
@@ -632,13 +632,24 @@ func ruleSymAncestry(c *Ctx) []*Obligation {
 							continue
 						}
 					}
-					if isFresh(call) || isFresh(a0) {
+					if isFresh(call, 6) {
 						appendFound = true
 						continue
 					}
 				}
 			}
-			if isFresh(st.Val) {
+			if isFresh(st.Val, 6) {
+				// the character may have been appended before the store (built in a local first)
+				if backwardSliceHas(st.Val, func(v ssa.Value) bool {
+					call, ok := v.(*ssa.Call)
+					if !ok {
+						return false
+					}
+					bi, ok := call.Call.Value.(*ssa.Builtin)
+					return ok && bi.Name() == "append"
+				}) {
+					appendFound = true
+				}
 				continue
 			}
 			foreign = true
@@ -701,48 +712,29 @@ func ruleScanSymbol(c *Ctx) []*Obligation {
 	deep := c.MustFunc(pkgGeneric, "SymbolNode", "DeepestRead")
 	unw := c.MustFunc(pkgGeneric, "SymbolNode", "UnreadToValid")
 	root := c.MustFunc(pkgGeneric, "SymbolRootNode", "NextToken")
-	classify := func(fn *ssa.Function, ret *ssa.Return) string {
-		v := ret.Results[0]
-		if v == ssa.Value(fn.Params[0]) {
-			return "self"
-		}
-		if call, ok := v.(*ssa.Call); ok {
-			if g := call.Call.StaticCallee(); g == fn {
-				return "recurse"
-			}
-		}
-		return "other"
-	}
-	report := func(fn *ssa.Function, want map[string][2]int, what string) {
-		pcs := c.scannerPathCounts(fn)
-		seenKinds := map[string]bool{}
-		bad := ""
-		for _, pc := range pcs {
-			k := classify(fn, pc.ret)
-			seenKinds[k] = true
-			w, ok := want[k]
-			if !ok {
-				bad = "unexpected return shape"
-				continue
-			}
-			if pc.reads != w[0] || pc.unreads != w[1] {
-				bad = fmt.Sprintf("a path returning %q does %d Read and %d Unread, expected %d and %d", k, pc.reads, pc.unreads, w[0], w[1])
-			}
-		}
-		for k := range want {
-			if !seenKinds[k] {
-				bad = "no path returns " + k
-			}
-		}
+	// Invariant of both walks, in either spelling (recursive or iterative): relative to the entry, the
+	// number of characters consumed and not pushed back equals the number of trie levels the returned
+	// node lies below the receiver (negative = above). Decided by abstract interpretation of the
+	// function over (net characters consumed, level of each node value), re-based on the current node
+	// at every loop head so that the state space is finite.
+	report := func(fn *ssa.Function, wantDescent bool, what string) {
 		key := c.FuncKey(fn) + "#per-level-balance"
-		if bad != "" {
-			o.bad(key, c.Pos(fn.Pos()), bad+": "+what)
-		} else {
-			o.ok(key, c.Pos(fn.Pos()), fmt.Sprintf("%d path(s): %s", len(pcs), what))
+		res := c.levelBalance(fn)
+		switch {
+		case res.undecided != "":
+			o.undecided(key, c.Pos(fn.Pos()), res.undecided)
+		case res.bad != "":
+			o.bad(key, c.Pos(fn.Pos()), res.bad+": "+what)
+		case wantDescent && !res.descends:
+			o.bad(key, c.Pos(fn.Pos()), "the walk never descends to a child found for the character read: "+what)
+		case !wantDescent && !res.ascends:
+			o.bad(key, c.Pos(fn.Pos()), "the walk never steps to the parent: "+what)
+		default:
+			o.ok(key, c.Pos(fn.Pos()), fmt.Sprintf("%d return path(s) explored, on each the net characters consumed equal the levels moved: %s", res.returns, what))
 		}
 	}
-	report(deep, map[string][2]int{"self": {1, 1}, "recurse": {1, 0}}, "one character is read per level and pushed back exactly when the walk stops here (end of input included)")
-	report(unw, map[string][2]int{"self": {0, 0}, "recurse": {0, 1}}, "one character is pushed back per step from an invalid node to its parent")
+	report(deep, true, "one character is read per level and pushed back exactly when the walk stops (end of input included)")
+	report(unw, false, "one character is pushed back per step from an invalid node to its parent")
 	// root: one Read; the trie path calls DeepestRead then UnreadToValid on its result; the fallback token is the single character read
 	reads := 0
 	var readCall *ssa.Call
@@ -874,4 +866,217 @@ func ruleMapDispatch(c *Ctx) []*Obligation {
 		o.check(calls == 1 && other == "", k, c.Pos(fn.Pos()), "one call into the character map, no other state", name+" "+other+" (expected exactly one forwarding call into the character map)")
 	}
 	return o.list
+}
+
+type levelResult struct {
+	returns   int
+	bad       string
+	undecided string
+	descends  bool
+	ascends   bool
+}
+
+// levelBalance explores fn path-sensitively. Node values carry a level relative to the receiver:
+// receiver 0, FindChildWithChar(x) = level(x)+1, x.parent = level(x)-1, a recursive call of fn on x
+// returns (by induction) a node m levels below x having consumed m characters - modelled with m = 0,
+// which leaves the checked difference unchanged. Scanner Read = +1, Unread = -1.
+func (c *Ctx) levelBalance(fn *ssa.Function) levelResult {
+	res := levelResult{}
+	type state struct {
+		consumed int
+		level    map[ssa.Value]int
+		lastRead ssa.Value
+	}
+	const nilLevel = -1 << 20 // marks a node value known to be nil on this path
+	isNode := func(v ssa.Value) bool { return strings.HasSuffix(v.Type().String(), "generic.SymbolNode") }
+	var levelOf func(st *state, v ssa.Value) (int, bool)
+	levelOf = func(st *state, v ssa.Value) (int, bool) {
+		if l, ok := st.level[v]; ok {
+			return l, true
+		}
+		if v == ssa.Value(fn.Params[0]) {
+			return 0, true
+		}
+		switch x := v.(type) {
+		case *ssa.Call:
+			cc := x.Common()
+			if g := cc.StaticCallee(); g != nil && len(cc.Args) > 0 {
+				switch {
+				case g.Name() == "FindChildWithChar":
+					if l, ok := levelOf(st, cc.Args[0]); ok {
+						res.descends = true
+						if len(cc.Args) > 1 && st.lastRead != nil && stripConv(cc.Args[1]) != st.lastRead && res.bad == "" {
+							res.bad = "the walk descends to the child for a character other than the one it has just read"
+						}
+						return l + 1, true
+					}
+				case g == fn:
+					return levelOf(st, cc.Args[0])
+				}
+			}
+		case *ssa.UnOp:
+			if x.Op == token.MUL {
+				if fa, ok := x.X.(*ssa.FieldAddr); ok && fieldName(fa.X.Type(), fa.Field) == "parent" {
+					if l, ok := levelOf(st, fa.X); ok {
+						res.ascends = true
+						return l - 1, true
+					}
+				}
+			}
+		}
+		return 0, false
+	}
+	isHeader := func(b *ssa.BasicBlock) bool {
+		for _, p := range b.Preds {
+			if b.Dominates(p) {
+				return true
+			}
+		}
+		return false
+	}
+	type visitKey struct {
+		b   *ssa.BasicBlock
+		sig string
+	}
+	visited := map[visitKey]bool{}
+	steps := 0
+	var walk func(b, pred *ssa.BasicBlock, st state)
+	walk = func(b, pred *ssa.BasicBlock, st state) {
+		steps++
+		if steps > 5000 || res.undecided != "" {
+			if steps > 5000 {
+				res.undecided = "path exploration did not converge"
+			}
+			return
+		}
+		// phis
+		nl := map[ssa.Value]int{}
+		for k, v := range st.level {
+			nl[k] = v
+		}
+		for _, in := range b.Instrs {
+			phi, ok := in.(*ssa.Phi)
+			if !ok {
+				break
+			}
+			if !isNode(phi) {
+				continue
+			}
+			for i, p := range b.Preds {
+				if p == pred {
+					if l, ok := levelOf(&st, phi.Edges[i]); ok {
+						nl[phi] = l
+					} else if isNilConst(phi.Edges[i]) {
+						nl[phi] = nilLevel
+					} else {
+						res.undecided = "a node value of unknown level flows into " + phi.Name()
+						return
+					}
+				}
+			}
+		}
+		st.level = nl
+		if isHeader(b) {
+			// re-base on the first node phi of the header
+			for _, in := range b.Instrs {
+				phi, ok := in.(*ssa.Phi)
+				if !ok {
+					break
+				}
+				if l, has := st.level[phi]; has && isNode(phi) && l != nilLevel {
+					st.consumed -= l
+					for k := range st.level {
+						if st.level[k] != nilLevel {
+							st.level[k] -= l
+						}
+					}
+					break
+				}
+			}
+		}
+		sig := fmt.Sprint(st.consumed)
+		var ks []string
+		for k, v := range st.level {
+			if _, isPhi := k.(*ssa.Phi); isPhi {
+				ks = append(ks, fmt.Sprintf("%s=%d", k.Name(), v))
+			}
+		}
+		sort.Strings(ks)
+		vk := visitKey{b, sig + strings.Join(ks, ",")}
+		if visited[vk] {
+			return
+		}
+		visited[vk] = true
+		for _, in := range b.Instrs {
+			switch t := in.(type) {
+			case *ssa.Call:
+				if t.Call.IsInvoke() && strings.HasSuffix(t.Call.Value.Type().String(), "io.IScanner") {
+					switch t.Call.Method.Name() {
+					case "Read":
+						st.consumed++
+						st.lastRead = t
+					case "Unread":
+						st.consumed--
+					case "UnreadMany":
+						res.undecided = "UnreadMany with a computed count inside the walk"
+						return
+					}
+				}
+				if isNode(t) {
+					delete(st.level, t) // recomputed from its operands on every execution
+					if l, ok := levelOf(&st, t); ok {
+						st.level[t] = l
+					}
+				}
+			case *ssa.UnOp:
+				if isNode(t) {
+					delete(st.level, t)
+					if l, ok := levelOf(&st, t); ok {
+						st.level[t] = l
+					}
+				}
+			case *ssa.Return:
+				res.returns++
+				l, ok := levelOf(&st, t.Results[0])
+				if ok && l == nilLevel {
+					return // returns nil: not a node
+				}
+				if !ok {
+					if !isNilConst(t.Results[0]) {
+						res.undecided = "the level of a returned node is unknown"
+					}
+					return
+				}
+				if l != st.consumed && res.bad == "" {
+					res.bad = fmt.Sprintf("on a path the walk returns a node %d level(s) from where it started having consumed %d character(s) net", l, st.consumed)
+				}
+				return
+			}
+		}
+		succs := b.Succs
+		if ifi, ok := b.Instrs[len(b.Instrs)-1].(*ssa.If); ok {
+			// a value known to be nil on this path decides its own nil test
+			if bo, ok := ifi.Cond.(*ssa.BinOp); ok && isNilConst(bo.Y) && (bo.Op == token.EQL || bo.Op == token.NEQ) {
+				if l, has := st.level[bo.X]; has && l == nilLevel {
+					if bo.Op == token.EQL {
+						succs = b.Succs[:1]
+					} else {
+						succs = b.Succs[1:]
+					}
+				}
+			}
+		}
+		for _, s := range succs {
+			ns := state{st.consumed, map[ssa.Value]int{}, st.lastRead}
+			for k, v := range st.level {
+				ns.level[k] = v
+			}
+			walk(s, b, ns)
+		}
+	}
+	walk(fn.Blocks[0], nil, state{0, map[ssa.Value]int{}, nil})
+	if res.returns == 0 && res.undecided == "" {
+		res.undecided = "no return reached"
+	}
+	return res
 }
